@@ -185,7 +185,7 @@ func TestC05(t *testing.T) {
 	})
 	// random operands: node-sets as paths over generated documents
 	runProp(t, "random", 96000, 1000000, func(t *rapid.T) {
-		c, p := genDocCase(t, caseOpts{cfg: xmodel.GenCfg{MaxDepth: 3, MaxKids: 4, Numeric: true, NoNS: true, Names: []string{"a", "b", "c"}}, vars: true, nodeVars: true},
+		c, p := genDocCase(t, caseOpts{cfg: xmodel.GenCfg{MaxDepth: 3, MaxKids: 4, Numeric: true, NoNS: true, Names: []string{"a", "b", "c"}, Stress: true}, vars: true, nodeVars: true},
 			func(g *xast.G, p *prepared) *xast.Expr {
 				operand := func(label string) *xast.Expr {
 					switch rapid.IntRange(0, 6).Draw(g.T, label) {
